@@ -107,7 +107,7 @@ func NewWitKeys(r *rand.Rand, schemes []bool, pair bool) (*WitKeys, error) {
 			seed[j] = byte(r.Uint32())
 		}
 		sk := refnote.NewSignKey(fmt.Sprintf("witness%d.example", i), seed)
-		if pair && last != nil {
+		if pair && last != nil && i > 0 && schemes[i] != schemes[i-1] && i%2 == 1 {
 			sk = last
 		}
 		last = sk
